@@ -41,6 +41,44 @@ type scriptTransport struct {
 	n         int
 	exhausted bool
 	lasts     []string // the `last` query parameter of each request, as a server decodes it
+	// one connection (an http.Transport with MaxConnsPerHost: 1): a request cannot be sent while the
+	// body of an earlier response is neither read to its end nor closed
+	bodies  []*heldBody
+	starved bool
+}
+
+// heldBody is a response body that keeps its connection until it has been read to the end or closed.
+type heldBody struct {
+	r        io.Reader
+	released atomic.Bool
+}
+
+func (b *heldBody) Read(p []byte) (int, error) {
+	n, err := b.r.Read(p)
+	if err != nil {
+		b.released.Store(true)
+	}
+	return n, err
+}
+
+func (b *heldBody) Close() error {
+	b.released.Store(true)
+	return nil
+}
+
+// connectionFree waits a moment for the connection (a real transport waits for ever).
+func (t *scriptTransport) connectionFree() bool {
+	for i := 0; i < 30; i++ {
+		free := true
+		for _, b := range t.bodies {
+			free = free && b.released.Load()
+		}
+		if free {
+			return true
+		}
+		time.Sleep(10 * time.Millisecond)
+	}
+	return false
 }
 
 var errScriptExhausted = errors.New("script exhausted")
@@ -50,6 +88,10 @@ func (t *scriptTransport) RoundTrip(req *http.Request) (*http.Response, error) {
 	if req.Body != nil {
 		io.Copy(io.Discard, req.Body)
 		req.Body.Close()
+	}
+	if !t.connectionFree() {
+		t.starved = true
+		return nil, errors.New("no connection: the body of an earlier response was never read to the end or closed")
 	}
 	if t.n >= len(t.resps) {
 		t.exhausted = true
@@ -67,8 +109,14 @@ func (t *scriptTransport) RoundTrip(req *http.Request) (*http.Response, error) {
 	resp := &http.Response{
 		StatusCode: r.status, Status: fmt.Sprintf("%d %s", r.status, http.StatusText(r.status)),
 		Proto: "HTTP/1.1", ProtoMajor: 1, ProtoMinor: 1, Header: h, Request: req,
-		Body: io.NopCloser(strings.NewReader(r.body)), ContentLength: int64(len(r.body)),
+		ContentLength: int64(len(r.body)),
 	}
+	hb := &heldBody{r: strings.NewReader(r.body)}
+	if r.body == "" || req.Method == "HEAD" || r.status < 200 || r.status == 204 || r.status == 304 {
+		hb.released.Store(true) // nothing to read: the connection is free at once
+	}
+	t.bodies = append(t.bodies, hb)
+	resp.Body = hb
 	if cl := h.Get("Content-Length"); cl != "" {
 		// net/http parses Content-Length itself; a malformed value never reaches the client code.
 		if n, err := strconv.ParseInt(cl, 10, 64); err == nil && n >= 0 {
@@ -120,7 +168,7 @@ func (*c18) Impl(c Case) []string {
 			out[i] = withWatchdog(func() string { return c18Pager(t) })
 		case "cl":
 			out[i] = withWatchdog(func() string { return c18Op(t) })
-			if out[i] != "panic" && out[i] != "hang" {
+			if out[i] != "panic" && out[i] != "hang" && !strings.HasPrefix(out[i], "starved") {
 				out[i] = "skip" // the model has no opinion: judged by the oracle through re-execution
 			}
 		default:
@@ -302,10 +350,44 @@ func c18Op(t []string) string {
 	default:
 		return "bad-op"
 	}
+	// the caller goes on using the client: with one connection, what the operation left open starves it
+	if !tr.starved {
+		tr.resps = append(tr.resps[:tr.n:tr.n], scriptedResp{status: 200, hdr: [][2]string{{"Content-Type", "application/octet-stream"}, {"Docker-Content-Digest", string(dg)}, {"Content-Length", "1"}}})
+		cl.ResolveBlob(ctx, "foo", dg)
+	}
+	if tr.starved {
+		return fmt.Sprintf("starved requests=%d", tr.n)
+	}
 	if err != nil {
 		return fmt.Sprintf("err requests=%d", tr.n)
 	}
 	return fmt.Sprintf("ok requests=%d", tr.n)
+}
+
+// c18RespAt: status and headers (lower-cased names) of the k-th scripted response of a `cl` line.
+func c18RespAt(t []string, k int) (int, map[string]string) {
+	hdr := map[string]string{}
+	if len(t) < 4 {
+		return 0, hdr
+	}
+	rest := t[4:]
+	for i := 0; len(rest) >= 3; i++ {
+		st, _ := strconv.Atoi(rest[0])
+		nh, _ := strconv.Atoi(rest[2])
+		if len(rest) < 3+2*nh {
+			break
+		}
+		if i == k {
+			for j := 0; j < nh; j++ {
+				name, _ := untok(rest[3+2*j])
+				v, _ := untok(rest[4+2*j])
+				hdr[strings.ToLower(name)] = v
+			}
+			return st, hdr
+		}
+		rest = rest[3+2*nh:]
+	}
+	return 0, hdr
 }
 
 // ---- generation ----
@@ -458,6 +540,21 @@ func (*c18) Oracle(c Case, impl []string) []Failure {
 				}
 			}
 			fs = append(fs, Failure{Class: class, Oracle: "client_total", Index: i, Expected: "a result or an error", Observed: got, Detail: "panic value: " + detail})
+		}
+		if t[0] == "cl" && strings.HasPrefix(got, "starved") {
+			// with a transport limited to one connection per host, the request that follows is never sent:
+			// that operation does not return
+			class := "client-hang:connection-never-released:" + t[2]
+			sent, _ := strconv.Atoi(strings.TrimPrefix(got, "starved requests="))
+			if st, hdr := c18RespAt(t, sent-1); t[2] == "GetTag" && st == 200 && hdr["docker-content-digest"] == "" {
+				if n, err := strconv.ParseInt(hdr["content-length"], 10, 64); err == nil && n > 128*1024 {
+					// the digest of a large manifest read by tag is fetched with a HEAD request while the body of
+					// the GET is still open (it is what the caller is given): finding F30
+					class += ":large-manifest-head"
+				}
+			}
+			fs = append(fs, Failure{Class: class, Oracle: "client_total", Index: i,
+				Expected: "every response body is read to the end or closed by the time another request is made", Observed: got})
 		}
 		if t[0] == "pg" && strings.Contains(got, " next-page-asks-after ") {
 			// asking again for what it was just given is how a pager loops without progress against a
